@@ -1149,6 +1149,11 @@ func (fc *fnCtx) execBody(st0 *State, args []Val) {
 	}
 }
 
+func isConstVal(v ssa.Value) bool {
+	_, ok := v.(*ssa.Const)
+	return ok
+}
+
 func (fc *fnCtx) execBlock(b *ssa.BasicBlock, st *State, in map[*ssa.BasicBlock][]inEdge) {
 	for _, instr := range b.Instrs {
 		if st.dead {
@@ -1159,7 +1164,19 @@ func (fc *fnCtx) execBlock(b *ssa.BasicBlock, st *State, in map[*ssa.BasicBlock]
 			c := fc.get(st, x.Cond).T
 			s0, s1 := st.clone(), st.clone()
 			s0.pc = fc.defs.Define("pc", "Bool", and(st.pc, c))
+			exitFact := ""
+			if b.Comment == "rangeindex.loop" {
+				// go/ssa lowering of `for i := range x`: the hidden index is incremented and compared
+				// with the length taken once before the loop; it never exceeds it, so the loop is left
+				// with index+1 == length (stated as an equation: solvers substitute it)
+				if cmp, ok := x.Cond.(*ssa.BinOp); ok && cmp.Op == token.LSS {
+					exitFact = eq(fc.get(st, cmp.X).T, fc.get(st, cmp.Y).T)
+				}
+			}
 			s1.pc = fc.defs.Define("pc", "Bool", and(st.pc, not(c)))
+			if exitFact != "" {
+				s1.pc = fc.defs.Define("pc", "Bool", and(s1.pc, exitFact))
+			}
 			fc.flow(b, b.Succs[0], s0, in)
 			fc.flow(b, b.Succs[1], s1, in)
 			return
@@ -1261,7 +1278,8 @@ func (fc *fnCtx) enterLoop(li *loopInfo, st *State) {
 		return
 	}
 	fc.top.loopInfo = append(fc.top.loopInfo, li)
-	// 1. invariant on entry
+	// 1. invariant on entry (names resolve as inside the loop: its own hidden cells win)
+	fc.top.curLoop = li
 	if li.spec != nil {
 		for i, inv := range li.spec.Invariants {
 			env := fc.specEnv(st, nil)
@@ -1323,6 +1341,14 @@ func (fc *fnCtx) enterLoop(li *loopInfo, st *State) {
 			if a, ok := ld.X.(*ssa.Alloc); ok && a.Comment == "rangeindex" {
 				if v := st.cells[a]; v != "" {
 					fc.assume(st, "(>= "+v+" (- 1))")
+					// ... and stays below the length read before the loop
+					if iff, ok := li.header.Instrs[len(li.header.Instrs)-1].(*ssa.If); ok {
+						if cmp, ok := iff.Cond.(*ssa.BinOp); ok && cmp.Op == token.LSS {
+							if _, inLoop := fc.vals[cmp.Y]; inLoop || isConstVal(cmp.Y) {
+								fc.assume(st, "(< "+v+" "+fc.get(st, cmp.Y).T+")")
+							}
+						}
+					}
 				}
 			}
 		}
@@ -1538,7 +1564,9 @@ func (fc *fnCtx) execInstr(st *State, instr ssa.Instruction) {
 	case *ssa.MakeSlice:
 		ln := fc.get(st, x.Len)
 		cp := fc.get(st, x.Cap)
-		fc.oblige(st, "makeslice", "", fmt.Sprintf("(and (<= 0 %s) (<= %s %s))", ln.T, ln.T, cp.T), "make: 0 <= len <= cap", x.Pos(), false)
+		mk := fmt.Sprintf("(and (<= 0 %s) (<= %s %s))", ln.T, ln.T, cp.T)
+		fc.oblige(st, "makeslice", "", mk, "make: 0 <= len <= cap", x.Pos(), false)
+		fc.assume(st, mk) // execution continues only if make did not panic
 		et := x.Type().Underlying().(*types.Slice).Elem()
 		r := fc.allocRef(st, x.Name())
 		hn, hs := fc.heapElemName(et)
